@@ -209,7 +209,9 @@ pub fn tree_walker(
                 target_base.clone()
             };
 
-            if config.no_clobber && target.exists() {
+            // symlink_metadata() rather than exists(): a dangling
+            // symlink at the target is an existing entry too.
+            if config.no_clobber && target.symlink_metadata().is_ok() {
                 let msg = "Destination file exists and --no-clobber is set.";
                 stats.send(StatusUpdate::Error(
                     XcpError::DestinationExists(msg, target)))?;
